@@ -12,7 +12,7 @@ ALL = dict(
         design_ref="§4 C01", technique="explicit-state BFS over the real env.step with the full action alphabet + spec-membership monitor; step-counter and player-position injection for boundary states",
         note=NOTE_COMMON + "Long time limits are reached by injecting the step counter (models *@horizon)."),
     C02=dict(
-        text="For every environment an explored transition set is re-executed under jit, vmap (batch 1,2,7), lax.scan (prefix lengths 1,2,5,full) and plain eager calls and must agree leaf by leaf; all call histories up to length 2-3 over {reset(k0),reset(k1),step(s0,a0),step(s0,a1),step(s1,a0)} on one object must equal the same calls on a fresh object; arguments are checked for identity and value after every eager call; jaxpr effects must be empty.",
+        text="For every environment an explored transition set is re-executed under jit, vmap (batch 1,2,7), lax.scan (prefix lengths 1,2,5,full) and plain eager calls and must agree leaf by leaf; all call histories up to length 2-3 over {reset(k0),reset(k1),step(s0,a0),step(s0,a1),step(s1,a0)} on one object must equal the same calls on a fresh object; arguments are checked for identity and value after every eager call; jaxpr effects must be empty. Native eager episodes hand the objects returned by un-jitted reset/step on untouched; all call histories of length 2-3 on two environments sharing one generator / reward-function object / caller-owned array must equal environments with components of their own; configurations of one class driven one after the other in one process (both orders) must equal each configuration alone in a fresh interpreter; int32 actions where the spec declares another integer dtype.",
         design_ref="§4 C02", technique="explicit-state exploration + exhaustive call-history enumeration, cross-checked across program transformations",
         note=NOTE_COMMON + "disable_jit, pmap, gradients and other backends are out of scope; float leaves compared with rtol 1e-5."),
     C03=dict(
@@ -48,7 +48,7 @@ ALL = dict(
         design_ref="§4 C10", technique="bounded-exhaustive enumeration of (generator, size, key) with instance validators", engine="enumerator",
         note=NOTE_ENUM + "2^64 keys cannot be enumerated: the key window is the bound (64 quick / 2048 thorough), plus explicit regression keys."),
     C11=dict(
-        text="For the 12 time-limited environments every action sequence up to the limit is explored for limits 1..12 (and by step-counter injection for long/default limits): an edge leaving step T-1 must be LAST and an earlier LAST needs an independent documented cause; horizon-only environments are closed and their depth compared with the structural bound.",
+        text="For the 12 time-limited environments every action sequence up to the limit is explored for limits 1..12 (and by step-counter injection for long/default limits): an edge leaving step T-1 must be LAST and an earlier LAST needs an independent documented cause; horizon-only environments are closed and the longest path of their non-terminal edge graph (which must be acyclic) is compared with the structural bound; whole mode-B episodes of the default-size horizon-only configurations and MultiCVRP idle-prefix schedules reach the fixed step limit.",
         design_ref="§4 C11", technique="explicit-state BFS to depth time_limit+1 with explorer-side step numbering; horizon injection",
         note=NOTE_COMMON + "'Other reason' predicates are recomputed from child-state arrays."),
     C12=dict(
